@@ -310,8 +310,7 @@ class ParserAI:
 
     # ------------------------------------------------------------------ switch
     def _switch(self, f, bb, t, env, k):
-        l = op_local(t[1])
-        av = env.get(l) if l is not None else None
+        av = self._op_av(f, t[1], env, k, ())
         if av is None and op_const(t[1]) is not None:
             av = ("i", op_const(t[1])[1])
         if av is not None and av[0] in ("i", "b"):
@@ -479,6 +478,27 @@ class ParserAI:
             if not good:
                 return ["PANIC"]
             return [ret(a[2] if len(a) > 2 else None)]
+        if name in ("is_some_and", "is_none_or", "map_or", "is_ok_and", "is_err_and") and ("Option" in path or "Result" in path) \
+                and argavs and argavs[0] is not None and argavs[0][0] == "v":
+            a = argavs[0]
+            carries = (a[1] == 1) if "Option" in path else ((a[1] == 0) != (name == "is_err_and"))
+            default = {"is_some_and": ("b", 0), "is_ok_and": ("b", 0), "is_err_and": ("b", 0), "is_none_or": ("b", 1),
+                       "map_or": argavs[1] if len(argavs) > 2 else None}[name]
+            if not carries:
+                return [ret(default)]
+            fav = argavs[-1]
+            while fav is not None and fav[0] == "ref":
+                fav = fav[1]
+            if fav is not None and fav[0] == "fn" and self.analysable(fav[1]):
+                res = []
+                inner = [None, a[2] if len(a) > 2 else None] if self.F.fns[fav[1]].kind == "Closure" else [a[2] if len(a) > 2 else None]
+                for rav, consumed in self.outcomes(fav[1], k, (), tuple(inner)):
+                    if rav == "!":
+                        res.append("PANIC")
+                    else:
+                        res.append(ret(rav if not consumed else None, consumed=consumed))
+                return res
+            return [ret(None)]
         if name == "require" and argavs and argavs[0] is not None and argavs[0][0] == "b":
             return [ret(("v", 1, None) if argavs[0][1] else ("v", 0, None))]
         # --- a closure called directly: the arguments arrive as (closure, (args..)) and are spread in the body
